@@ -22,7 +22,7 @@ def _load(path):
 def units():
     res = {}
     for p in sorted(glob.glob(os.path.join(ROOT, "contracts", "*.py"))):
-        if os.path.basename(p) in ("properties_map.py", "__init__.py", "common.py", "zz_exp.py") and False or os.path.basename(p) in ("properties_map.py", "__init__.py", "common.py") or os.path.basename(p).endswith("_mech.py"):
+        if os.path.basename(p) in ("properties_map.py", "__init__.py", "common.py") or os.path.basename(p).endswith("_mech.py") or (os.path.basename(p).startswith("zz_") and not os.environ.get("FV_EXP")):
             continue
         mod = _load(p)
         for u in getattr(mod, "UNITS", [getattr(mod, "UNIT", None)]):
